@@ -162,6 +162,16 @@ Compare(d) ==
                   oa |-> PFloat(OrdinalOf(a, "3")), ob |-> IF IsRating(b) THEN PFloat(OrdinalOf(b, "3")) ELSE PNone,
                   out |-> out, group |-> "", role |-> "", gprop |-> "", aux |-> PNone]
 
+\* the caller assigns the public attributes of a rating object (ratings are plain mutable objects)
+Assign(d) ==
+  LET a == heap[d.ref]
+      a2 == [a EXCEPT !.mu = d.mu, !.sigma = d.sigma]
+  IN  /\ depth < MaxDepth /\ depth' = depth + 1
+      /\ UNCHANGED models
+      /\ heap' = [heap EXCEPT ![d.ref] = a2]
+      /\ last' = [op |-> "assign", tid |-> 1, a |-> a, a_after |-> a2, out |-> OkOut(PNone),
+                  group |-> "", role |-> "", gprop |-> "", aux |-> PNone]
+
 ---------------------------------------------------------------------------
 Init == /\ models = Models /\ heap = Cast /\ last = InitObs /\ depth = 0
 
@@ -172,6 +182,7 @@ Next == \/ \E d \in RateCalls(models, heap) : Rate(d)
                 [] d.op = "create"   -> CreateRating(d)
                 [] d.op = "deepcopy" -> DeepCopy(d)
                 [] d.op = "cmp"      -> Compare(d)
+                [] d.op = "assign"   -> Assign(d)
 
 Spec == Init /\ [][Next]_vars
 
@@ -192,7 +203,7 @@ Inv_Predict ==
   /\ (last.op = "win" /\ Ok(last))  => C09Single(last) = {}
   /\ (last.op = "draw" /\ Ok(last)) => C10Single(last) = {}
   /\ (last.op = "rank" /\ Ok(last)) => C11Single(last) = {}
-Inv_Obj == last.op \in {"rating", "create", "deepcopy", "cmp"} =>
+Inv_Obj == last.op \in {"rating", "create", "deepcopy", "cmp", "assign"} =>
              ObjVerdict(last, [r \in {} |-> PNone], {"C18", "C20"}).fails \ {"C20.id_not_fresh"} = {}
 
 \* C15 as the property states it: the effective options are the call's arguments when given (0 and False are
